@@ -166,8 +166,16 @@ def make_spec(case, opened):
             pool = {'derived': gen.DERIVED_POOL, 'main': gen.MAIN_POOL}.get(case.get('pool'), gen.SAFE_POOL)
             base, _, _ = gen.gen_net(rnd, pool=pool, label_pool=pool if case.get('hostile_labels') else None,
                                      n_nodes=rnd.choice([11, 12, 13, 14, 16]) if wide else rnd.choice([2, 3, 4, 5, 6, 8]),
-                                     max_types=2 if wide else 3, depth=rnd.choice([0, 0, 0, 1, 2]), same_type_bias=True,
+                                     max_types=2 if wide else 3, depth=0 if wide else rnd.choice([0, 0, 0, 1, 2]), same_type_bias=True,
                                      n_edges=0)
+            if wide and len(base['node_types']) >= 2 and rnd.random() < 0.6:
+                # one node type with a single node (scalar source / target variable) next to one wide group
+                nts = sorted(base['node_types'])
+                labs = sorted(base['circ']['nodes']) if not base['circ']['subs'] else None
+                if labs:
+                    for lab in labs:
+                        base['circ']['nodes'][lab] = nts[0]
+                    base['circ']['nodes'][rnd.choice(labs)] = nts[1]
             uniform = rnd.random() < 0.5 if not want else False
             if not uniform and not want:
                 # arbitrary connectivity, typical user convention: input variables default to zero
